@@ -104,10 +104,10 @@ def loop_stubs(instrs):
         lst = pool.get(key, [])
         return lst.pop(0) if lst else -1
 
-    def g1(state, node):
+    def g1(state, node, *extra, **kw):
         events.append(("G", ident(node)))
 
-    def g2(state, node, sim_params):
+    def g2(state, node, sim_params, *extra, **kw):
         events.append(("G", ident(node)))
         a, b = (q._index for q in node.qargs)  # noqa: SLF001
         return min(a, b), max(a, b)
@@ -216,6 +216,61 @@ def correspond(ctx):
         if scols != want_cols:
             ctx.violation("columns", f"strong mode ({mode}) wrote result columns {scols}, expected {want_cols}",
                           {"oracle": "columns", **desc})
+    history_correspondence(ctx)
+
+
+def run_history_trace(n, circuits, ctor_mid, sampling=True):
+    """one StrongSimParams object (constructed with num_mid_measurements = ctor_mid) through _run_strong_sim for a sequence
+    of circuits; returns the number of result columns of each run (or the error)"""
+    import mqt.yaqs.simulator as S
+    from mqt.yaqs.core.data_structures.networks import MPS
+    from mqt.yaqs.core.data_structures.simulation_parameters import Observable, StrongSimParams
+
+    p = StrongSimParams([Observable("z", 0)], sample_layers=sampling, num_mid_measurements=ctor_mid, show_progress=False)
+    out = []
+    for instrs in circuits:
+        qc = build_qiskit(n, instrs)
+        with loop_stubs(instrs):
+            try:
+                with common.time_limit(6.0):
+                    S._run_strong_sim(MPS(n), qc, p, None, parallel=False)  # noqa: SLF001
+                out.append(int(np.shape(p.observables[0].trajectories)[1]))
+            except common.HardTimeout:
+                out.append("TIMEOUT")
+                break
+            except Exception as e:  # noqa: BLE001
+                out.append(f"EXC:{type(e).__name__}")
+    return out
+
+
+def history_correspondence(ctx):
+    from common import g_list, g_nat
+
+    cases, exprs, impl = [], [], []
+    for k in range(ctx.scale(25, 400)):
+        n = int(ctx.rng.integers(2, 5))
+        circuits = []
+        for _ in range(int(ctx.rng.integers(2, 5))):
+            _, instrs = gen_circuit(ctx.rng, n=n, m=int(ctx.rng.integers(1, 7)))
+            circuits.append([(j, kd, q, nm, pr) for j, (_, kd, q, nm, pr) in enumerate(instrs)])
+        ctor = int(ctx.rng.integers(0, 5))
+        sampling = k % 5 != 4
+        labelled = [sum(1 for x in c if x[1] == "SBar") for c in circuits]
+        impl.append(run_history_trace(n, circuits, ctor, sampling))
+        p0 = f"{{| sample_layers := {g_bool(sampling)}; num_mid := {g_nat(ctor)} |}}"
+        exprs.append("[" + "; ".join(f"snd (run_layers {g_nat(labelled[j])} (layers_history {g_list([g_nat(x) for x in labelled[:j]])} {p0}))"
+                                      for j in range(len(circuits))) + "]")
+        cases.append(dict(qubits=n, labelled=labelled, ctor_mid=ctor, sampling=sampling, circuits=[[list(x) for x in c] for c in circuits]))
+    vals = common.coq_eval_sharded("From Coq Require Import List. Import ListNotations.\nFrom Yaqs Require Import Model.Params.", exprs, tag="c16h")
+    for c, got, want in zip(cases, impl, vals):
+        ctx.case(nontrivial_key=("hist", tuple(c["labelled"]), c["ctor_mid"], c["sampling"]) if len(set(c["labelled"])) > 1 or c["ctor_mid"] else None, validated=True)
+        ctx.count("history_traces")
+        if got != list(want):
+            ctx.mismatch("result columns of successive runs on one parameter object vs Params.run_layers", c, got, list(want), key="history")
+            j = next((j for j, (a, b) in enumerate(zip(got, list(want))) if a != b), len(got) - 1)
+            ctx.violation("history-columns", f"run {j + 1} on a reused StrongSimParams (labelled barriers per circuit {c['labelled']}, constructed with "
+                          f"num_mid_measurements={c['ctor_mid']}) has {got[j] if j < len(got) else 'no'} result columns, expected {list(want)[j]}",
+                          {"oracle": "history", **c})
 
 
 # ---- the property on real numerics ----------------------------------------------------------------------------
@@ -230,13 +285,14 @@ def numeric_oracle(args):
     n, instrs = args["n"], [tuple(x) for x in args["instrs"]]
     gates = [x for x in instrs if x[1] in ("G1", "G2")]
 
-    def run(ins, sampling):
+    def run(ins, sampling, p=None):
         qc = build_qiskit(n, ins)
-        obs = [Observable("z", q) for q in range(n)] + [Observable("x", 0)]
-        p = StrongSimParams(obs, sample_layers=sampling, show_progress=False, threshold=1e-14)
+        if p is None:
+            obs = [Observable("z", q) for q in range(n)] + [Observable("x", 0)]
+            p = StrongSimParams(obs, sample_layers=sampling, show_progress=False, threshold=1e-14)
         with common.time_limit(30):
             simulator.run(MPS(n), qc, p, None, parallel=False)
-        return np.array([np.real(o.results) for o in obs])
+        return np.array([np.real(o.results) for o in p.observables])
 
     def exact(prefix):
         qc = build_qiskit(n, [x for x in prefix if x[1] in ("G1", "G2")])
@@ -251,6 +307,28 @@ def numeric_oracle(args):
         vals.append(float(np.real(sv.expectation_value(SparsePauliOp("".join(lab))))))
         return np.array(vals)
 
+    if args.get("history") is not None:
+        # the same parameter object (constructed with an arbitrary num_mid_measurements) has been used for other circuits before
+        obs = [Observable("z", q) for q in range(n)] + [Observable("x", 0)]
+        shared = StrongSimParams(obs, sample_layers=True, num_mid_measurements=int(args.get("ctor_mid", 0)), show_progress=False, threshold=1e-14)
+        try:
+            for prev in args["history"]:
+                run([tuple(x) for x in prev], True, shared)
+            sampled = run(instrs, True, shared)
+        except common.HardTimeout:
+            return "simulator.run did not terminate within 30 s"
+        except Exception as e:  # noqa: BLE001
+            return (f"a run on a parameter object used before (labelled barriers of the earlier circuits: "
+                    f"{[sum(1 for x in pr if x[1] == 'SBar') for pr in args['history']]}, constructor value {args.get('ctor_mid', 0)}) raised {type(e).__name__}: {e}")
+        sb_pos = [k for k, x in enumerate(instrs) if x[1] == "SBar"]
+        if sampled.shape[1] != len(sb_pos) + 2:
+            return (f"{sampled.shape[1]} result columns for {len(sb_pos)} labelled barriers on a parameter object used before "
+                    f"(earlier circuits had {[sum(1 for x in pr if x[1] == 'SBar') for pr in args['history']]}, constructor value {args.get('ctor_mid', 0)})")
+        refs = [exact([])] + [exact(instrs[:k]) for k in sb_pos] + [exact(instrs)]
+        for c, ref in enumerate(refs):
+            if np.max(np.abs(sampled[:, c] - ref)) > 1e-6:
+                return f"reused parameter object: column {c} is not the expectation value of the state at that sampling point"
+        return None
     try:
         full_plain = run(instrs, False)
         stripped = run(gates, False)
@@ -278,6 +356,13 @@ def search(ctx):
             n, instrs = 3, [(0, "G1", [0], "h", 0.1), (1, "G2", [0, 1], "cx", 0.1), (2, "SBar", [0, 1, 2], "barrier", "sample_observables"),
                             (3, "G2", [2, 1], "rxx", 0.7), (4, "Meas", [0], "measure", None), (5, "G1", [2], "ry", 0.4)]
         args = {"n": n, "instrs": [list(x) for x in instrs]}
+        if k % 3 == 1:
+            hist = []
+            for _ in range(int(ctx.rng.integers(0, 3))):
+                _, prev = gen_circuit(ctx.rng, n=n, m=int(ctx.rng.integers(2, 8)), gateset=("rx", "ry", "h", "cx", "rzz", "rxx"))
+                hist.append([list(x) for x in prev])
+            args.update(history=hist, ctor_mid=int(ctx.rng.integers(0, 5)))
+            ctx.count("history_runs")
         why = numeric_oracle(args)
         kinds = [x[1] for x in instrs]
         ctx.case(nontrivial_key=("num", k) if any(kd in ("SBar", "Bar", "Meas") for kd in kinds) else None)
@@ -291,6 +376,10 @@ def replay(ctx, data):
     rp = data.get("replay", data)
     if rp.get("oracle") == "numeric":
         return numeric_oracle(rp["args"])
+    if rp.get("oracle") == "history":
+        got = run_history_trace(rp["qubits"], [[tuple(x) for x in c] for c in rp["circuits"]], rp["ctor_mid"], rp["sampling"])
+        want = [(lb + 2 if rp["sampling"] else 1) for lb in rp["labelled"]]
+        return f"columns per run {got}, expected {want}" if got != want else None
     if rp.get("oracle") in ("terminates", "columns"):
         ev, cols, err = run_impl_trace(rp["qubits"], [tuple(x) for x in rp["instrs"]], rp["mode"])
         if err == "TIMEOUT":
